@@ -50,7 +50,20 @@ def generate(seed, idx, tier):
     kinds = ['zero', 'big', 'nan', 'pinf'] if so == 'shampoo' else ['zero', 'big']
     ops = common.gen_history(rng, sched, len(tree), T, rate, fault_kinds=kinds,
                              jumps=0.05)
-    return {'system': 'tearfree', 'class': fam, 'mode': 'jit',
+    dead = rng.random() < 0.35
+    if dead:
+      # dead directions: row-sparse (embedding-like) gradients whose scale
+      # drops by 1e4 on some ticks - a fresh direction then lies below the
+      # relative eigenvalue cut-off of its block and the preconditioned
+      # gradient of a non-zero gradient is exactly zero
+      for op in ops:
+        if op['op'] == 'STEP' and not op.get('fault'):
+          op['kind'] = wpick(rng, [('rows', 5), ('sparse', 2), ('normal', 2)])
+          op.pop('leaf_scales', None)
+          if rng.random() < 0.45:
+            op['scale'] = 1e-4 * float(op.get('scale', 1.0))
+    return {'system': 'tearfree', 'class': fam + ('_dead' if dead else ''),
+            'mode': 'jit',
             'x64': so == 'shampoo' and rng.random() < 0.6, 'config': cfg,
             'tree': tree, 'lr': ds_gen.gen_lr(rng),
             'param_seed': rng.randrange(1000), 'ops': ops, 'oracles': ['graft']}
